@@ -32,12 +32,12 @@ type MOp struct {
 }
 
 type MapPlan struct {
-	VType string `json:"vtype"` // int string ptr error any
+	VType string `json:"vtype"`           // int string ptr error any
 	KType string `json:"ktype,omitempty"` // "" = int keys; "any" = interface keys, one of them the nil interface
 	Ops   []MOp  `json:"ops"`
 }
 
-var mapOps = []string{"Load", "Load", "Store", "Store", "LoadOrStore", "LoadAndDelete", "Delete", "Swap", "Swap", "CompareAndSwap", "CompareAndDelete", "Range"}
+var mapOps = []string{"Load", "Load", "Store", "Store", "LoadOrStore", "LoadAndDelete", "Delete", "Swap", "Swap", "CompareAndSwap", "CompareAndDelete", "Range", "RangeDel"}
 
 func genMapPlan(t *rapid.T) MapPlan {
 	p := MapPlan{VType: rapid.SampledFrom([]string{"int", "string", "ptr", "error", "any"}).Draw(t, "vtype")}
@@ -174,6 +174,53 @@ func runMapKV[K comparable, V any](p MapPlan, mkK func(int) K, mk func(int) V) (
 		case "CompareAndDelete":
 			err = cmp("CompareAndDelete", func() (V, bool) { return zero, w.CompareAndDelete(key, old) },
 				func() (any, bool) { return nil, ref.CompareAndDelete(any(key), any(old)) })
+		case "RangeDel":
+			// f deletes every other key while the Range is under way. sync.Map: "Range may reflect any mapping for
+			// that key from any point during the Range call" - so a key deleted by f is either skipped or shown
+			// with the value it had; it is never shown with a value it did not hold.
+			before := map[any]any{}
+			ref.Range(func(k, v any) bool { before[k] = v; return true })
+			var keep any
+			first := true
+			seen := map[any]bool{}
+			var rerr error
+			wp := catch2(func() {
+				w.Range(func(k K, v V) bool {
+					b, ok := before[any(k)]
+					switch {
+					case !ok:
+						rerr = vk.Violf("map-range", "%s: Range showed f the key %v, which the map did not hold", what, k)
+					case seen[any(k)]:
+						rerr = vk.Violf("map-range", "%s: Range showed f the key %v twice", what, k)
+					case b == nil && !same(any(v), any(zero)), b != nil && !same(any(v), b):
+						rerr = vk.Violf("map-range", "%s: Range showed f (%v, %v) after f had deleted that key; the key held %v during the call, never that value", what, k, v, b)
+					}
+					seen[any(k)] = true
+					if first {
+						first, keep = false, any(k)
+						for j := 0; j < 4; j++ {
+							if kj := mkK(j); any(kj) != keep {
+								w.Delete(kj)
+							}
+						}
+					}
+					return true
+				})
+			})
+			if wp {
+				return out, vk.Violf("map-panic", "%s: xsync.Map.Range with a deleting callback panicked", what)
+			}
+			if rerr != nil {
+				return out, rerr
+			}
+			if !first {
+				for j := 0; j < 4; j++ {
+					if kj := mkK(j); any(kj) != keep {
+						ref.Delete(any(kj))
+					}
+				}
+				out.Label("range-with-deleting-callback")
+			}
 		case "Range":
 			got := map[any]any{}
 			wp := catch2(func() {
@@ -628,8 +675,8 @@ func runFT[T comparable](p FPlan, val T) (vk.Outcome, error) {
 }
 
 type LPlan struct {
-	N      int `json:"n"`
-	FLatMs int `json:"flat"`
+	N      int   `json:"n"`
+	FLatMs int   `json:"flat"`
 	Delays []int `json:"delays"`
 }
 
@@ -846,4 +893,161 @@ func runWF(p WFPlan) (vk.Outcome, error) {
 func TestWatchableFirstSet(t *testing.T) {
 	theT = t
 	vk.Run(t, suite, "watchable-first-set", 600, genWF, reps(runWF))
+}
+
+// ---------------------------------------------------------------- storms: many tries at calls that overlap in real time
+
+type SyncStormPlan struct {
+	Mode    string `json:"mode"` // loadorstore | watchable
+	Parties int    `json:"parties"`
+	Rounds  int    `json:"rounds"`
+	Sets    int    `json:"sets,omitempty"`
+}
+
+func genSyncStorm(t *rapid.T) SyncStormPlan {
+	p := SyncStormPlan{Mode: rapid.SampledFrom([]string{"loadorstore", "watchable"}).Draw(t, "mode")}
+	if p.Mode == "loadorstore" {
+		p.Parties, p.Rounds = rapid.IntRange(3, 6).Draw(t, "parties"), rapid.IntRange(500, 2000).Draw(t, "rounds")
+	} else {
+		p.Parties, p.Rounds, p.Sets = rapid.IntRange(1, 3).Draw(t, "observers"), rapid.IntRange(2, 6).Draw(t, "rounds"), rapid.IntRange(300, 2000).Draw(t, "sets")
+	}
+	return p
+}
+
+// runLoadOrStoreStorm: several goroutines LoadOrStore the same absent key at once. Exactly one of them
+// stored (loaded == false, actual == its own value); everybody else loaded that value.
+func runLoadOrStoreStorm(p SyncStormPlan) (vk.Outcome, error) {
+	var out vk.Outcome
+	type res struct {
+		actual int
+		loaded bool
+	}
+	for round := 0; round < p.Rounds; round++ {
+		var m xsync.Map[int, int]
+		gate := make(chan struct{})
+		rs := make([]res, p.Parties)
+		var wg sync.WaitGroup
+		for g := 0; g < p.Parties; g++ {
+			wg.Add(1)
+			go func(g int) {
+				defer wg.Done()
+				<-gate
+				a, l := m.LoadOrStore(7, 100+g)
+				rs[g] = res{a, l}
+			}(g)
+		}
+		close(gate)
+		wg.Wait()
+		winner := -1
+		for g, r := range rs {
+			if !r.loaded {
+				if winner >= 0 {
+					return out, vk.Violf("map-flag", "round %d: LoadOrStore of one absent key from %d goroutines reported loaded=false to two of them (%d and %d): %v", round, p.Parties, winner, g, rs)
+				}
+				winner = g
+			}
+		}
+		if winner < 0 {
+			return out, vk.Violf("map-flag", "round %d: every LoadOrStore of an absent key reported loaded=true: %v", round, rs)
+		}
+		for g, r := range rs {
+			if r.actual != 100+winner {
+				return out, vk.Violf("map-value", "round %d: goroutine %d got actual=%d, the stored value is %d: %v", round, g, r.actual, 100+winner, rs)
+			}
+		}
+		if v, ok := m.Load(7); !ok || v != 100+winner {
+			return out, vk.Violf("map-value", "round %d: the map holds (%d,%v), stored was %d", round, v, ok, 100+winner)
+		}
+	}
+	out.NonTrivial, out.Execs = true, p.Rounds
+	out.Label("storm:loadorstore")
+	return out, nil
+}
+
+// runWatchableStorm: one setter issues Sets back to back while observers run the documented loop
+// (Value; wait for the channel; Value; ...). Values never go backwards for an observer, a channel is
+// always paired with the same value, and once the setter is done every observer arrives at the final
+// value - decided at quiescence inside a bubble.
+func runWatchableStorm(p SyncStormPlan) (vk.Outcome, error) {
+	var out vk.Outcome
+	err := bubble(func() error {
+		for round := 0; round < p.Rounds; round++ {
+			var w xsync.Watchable[int]
+			var mu sync.Mutex
+			paired := map[chan struct{}]int{}
+			var verr error
+			fail := func(e error) {
+				mu.Lock()
+				if verr == nil {
+					verr = e
+				}
+				mu.Unlock()
+			}
+			done := make([]atomic.Bool, p.Parties)
+			lastSeen := make([]atomic.Int64, p.Parties)
+			quit := make(chan struct{})
+			var wg sync.WaitGroup
+			for o := 0; o < p.Parties; o++ {
+				wg.Add(1)
+				go func(o int) {
+					defer wg.Done()
+					last := 0
+					for {
+						v, ch := w.Value()
+						if v < last {
+							fail(vk.Violf("watchable-order", "round %d: observer %d saw %d after %d (one setter, increasing values)", round, o, v, last))
+							return
+						}
+						last = v
+						lastSeen[o].Store(int64(v))
+						mu.Lock()
+						if pv, ok := paired[ch]; ok && pv != v {
+							mu.Unlock()
+							fail(vk.Violf("watchable-chan", "round %d: one channel was handed out with the values %d and %d", round, pv, v))
+							return
+						}
+						paired[ch] = v
+						mu.Unlock()
+						if v == p.Sets {
+							done[o].Store(true)
+							return
+						}
+						select {
+						case <-ch:
+						case <-quit:
+							return
+						}
+					}
+				}(o)
+			}
+			for i := 1; i <= p.Sets; i++ {
+				w.Set(i)
+			}
+			synctest.Wait()
+			for o := range done {
+				if !done[o].Load() && verr == nil {
+					verr = vk.Violf("watchable-stuck", "round %d: after %d back-to-back Sets observer %d is blocked on the channel it got together with the value %d: no later Set will ever close it", round, p.Sets, o, lastSeen[o].Load())
+				}
+			}
+			close(quit)
+			wg.Wait()
+			if verr != nil {
+				return verr
+			}
+		}
+		return nil
+	})
+	out.NonTrivial, out.Execs = true, p.Rounds
+	out.Label("storm:watchable")
+	return out, err
+}
+
+func TestSyncStorm(t *testing.T) {
+	theT = t
+	vk.Run(t, suite, "sync-storm", 40, genSyncStorm, func(p SyncStormPlan) (vk.Outcome, error) {
+		if p.Mode == "loadorstore" {
+			return runLoadOrStoreStorm(p)
+		}
+		return runWatchableStorm(p)
+	})
 }
